@@ -167,6 +167,9 @@ func (env *Env) Eval(n *Node) (interface{}, error) {
 }
 
 func (env *Env) eval(n *Node, parent *Node) (interface{}, error) {
+	if name, ok := remoteVar(n); ok {
+		return env.eval(Var(name, n.Ty), parent)
+	}
 	switch n.Kind {
 	case KLit:
 		return n.Val, nil
@@ -341,6 +344,9 @@ func (env *Env) evalAndOr(n *Node, parent *Node) (interface{}, error) {
 // any operand is DNE. Errors: returned as err (the caller restricts itself to
 // total programs for C05).
 func (env *Env) Kleene(n *Node) (interface{}, error) {
+	if name, ok := remoteVar(n); ok {
+		return env.Kleene(Var(name, n.Ty))
+	}
 	switch n.Kind {
 	case KLit:
 		return n.Val, nil
